@@ -45,6 +45,11 @@ def scheduler_corpus():
         S([P('p0', [2, 7])], [[9, True]], unit=0.1, prec=1),                     # F24
         S([P('p0', [17, 28])], [[15, False], [28, True]], unit=0.01, prec=2),    # F30
         S([P('p0', [3]), P('p1', [1])], [[2, False], [4, True]], t0=4),          # an engine resumed at t0 = 4
+        # a fractional emit step on the precision grid: the emit schedule stays on the grid over many steps
+        S([P('p0', [1])], [[15, True]], unit=0.1, prec=1, emit_ticks=1),
+        S([P('p0', [1])], [[16, True]], unit=0.1, prec=1, emit_ticks=2),
+        S([P('p0', [5])], [[160, True]], unit=0.01, prec=2, emit_ticks=10),
+        S([P('p0', [1]), P('p1', [3])], [[7, False], [9, True]], unit=0.1, prec=1, emit_ticks=3),
         S([P('p0', [2])], [[1, False], [2, True]], unit=0.1, prec=1, t0=1),      # 0.1 + 0.1 + 0.2 on the grid
         S([P('p0', [2]), P('p1', [3]), P('p2', [7])], [[5, False], [4, False], [6, True]]),
         S([P('p0', [4]), P('p1', [4])], [[8, True]]),
